@@ -57,7 +57,9 @@ SIGNED = ['-3', '- 3', '-0', '-0.0', '-.5', '-1e3', '-2j', '-0x10', '-  7']
 KEYWORDS = ['True', 'False', 'None']
 PIECES = ["''", '""', "'a'", '"b"', "'''c'''", '"""d\ne"""', "r'\\n'", "R'\\d'", "b''", "b'x'", "rb'\\x'", "Rb'y'",
           "u'y'", "'\\n\\t\\\\'", "'\\x41\\u00e9'", '\'"\'', '"\'"', "'é✓'", "'a b'", "'#not a comment'",
-          "'''q'r\"s'''", "b'\\x00\\xff'", "'\\''", "''''x'''"]
+          "'''q'r\"s'''", "b'\\x00\\xff'", "'\\''", "''''x'''",
+          # raw TAB characters inside the quotes (not the \\t escape): at column 2, after text, repeated, in bytes / raw / triple
+          "'\ta'", "'ab\tc\t\td'", "b'x\ty'", "r'\t\\t'", "'''t\tq\n\tr'''", "' \t '"]
 Q_PIECES = ["''", '""', "'a'", '"b"', "'''c'''", '"""d\ne"""', "r'\\n'", "b''", "b'x'", "u'y'", '\'"\'', "'é'",
             "rb'\\x'", "''''x'''"]
 
